@@ -12,7 +12,7 @@ from . import sym, extract
 from .sym import SVal, SInt, SBool, SOpt, SEnum, SSeq, Unsupported, _ie, _be, is_sym, merge
 from .spec import SSet, SpecFn, empty_set
 from .engine import (Engine, ReturnEx, BreakEx, ContinueEx, PathEnd, PyRaise, Opaque, HList, HSetList, HSymList,
-                     HIter, HMap, HFile, SObj, Closure, BoundMethod, Frame, Loop, Contract, call_by_names, conjuncts, MISSING)
+                     HIter, HMap, HFile, SObj, Closure, BoundMethod, Frame, Loop, Contract, call_by_names, conjuncts, MISSING, ConstFn, SUnion, HEnum)
 
 
 def exc_matches(exc_type, handler_type):
@@ -219,6 +219,17 @@ class Interp(Engine):
             f.vars[t.id] = v
         elif isinstance(t, (ast.Tuple, ast.List)):
             star = [i for i, e in enumerate(t.elts) if isinstance(e, ast.Starred)]
+            if star == [len(t.elts) - 1] and isinstance(v, (HSymList, SSeq)) and not isinstance(self.to_seq(v).length, int):
+                # a, b, *rest = <sequence of symbolic length>
+                seq = self.to_seq(v)
+                k = len(t.elts) - 1
+                if not self.decide(seq.len_e() >= k):
+                    raise PyRaise(ValueError, "not enough values to unpack", t)
+                for j in range(k):
+                    self.assign(t.elts[j], seq.get(z3.IntVal(j)), f)
+                rest = SSeq(z3.simplify(seq.len_e() - k), lambda i, seq=seq, k=k: seq.get(z3.simplify(_ie(i) + k)), kind="list")
+                self.assign(t.elts[k].value, rest, f)
+                return
             items = self.unpack_iter(v, len(t.elts) if not star else None, t)
             if star:
                 k = star[0]
@@ -462,6 +473,8 @@ class Interp(Engine):
             idx = z3.Int(self.fresh(name + "!idx"))
             self.run.pc.append(z3.And(idx >= 0, idx < len(cur.table)))
             return SEnum(idx, cur.table)
+        if isinstance(cur, SUnion):
+            return cur
         if isinstance(cur, (HSetList, HSymList, HIter, HList, HMap, SObj)):
             return cur      # heap objects are havocked in place (see havoc_heap)
         raise Unsupported("cannot havoc loop variable %r of kind %s; declare it in the loop contract" % (name, type(cur).__name__))
@@ -578,6 +591,13 @@ class Interp(Engine):
         it = self.eval(s.iter, f)
         k, spec = self.loop_spec(s, f)
         shared = None
+        wrap = None
+        if isinstance(it, HEnum):
+            en = it
+            it = en.base
+            def wrap(v, pos_before, en=en):
+                c = z3.simplify(_ie(pos_before) - _ie(en.p0) + _ie(en.start))
+                return (c.as_long() if z3.is_int_value(c) else SInt(c), v)
         if isinstance(it, HIter):
             shared = it
             seq = it.seq
@@ -604,9 +624,35 @@ class Interp(Engine):
                     return
             self.exec_block(s.orelse, f)
             return
+        if shared is not None and spec is not None and spec.unroll and spec.invariant is None:
+            # bounded unrolling of a loop over a shared cursor (the bound is part of the contract's domain)
+            for _n in range(spec.unroll + 1):
+                p = shared._pos
+                more = (p < seq.length) if (isinstance(p, int) and isinstance(seq.length, int)) else self.decide(_ie(p) < _ie(seq.length))
+                if not more:
+                    self.exec_block(s.orelse, f)
+                    return
+                if _n == spec.unroll:
+                    raise PathEnd("unroll bound reached")
+                v = seq.get(_ie(p) if is_sym(p) else z3.IntVal(p))
+                if seq.kind == "bytes" and isinstance(v, SInt):
+                    sym.note_fact(sym.byte_fact(v.e))
+                shared._pos = (p + 1) if isinstance(p, int) else SInt(z3.simplify(_ie(p) + 1))
+                if wrap is not None:
+                    v = wrap(v, p)
+                self.assign(s.target, v, f)
+                try:
+                    self.exec_block(s.body, f)
+                except ContinueEx:
+                    continue
+                except BreakEx:
+                    return
+            return
         if shared is not None and isinstance(seq.length, int) and isinstance(shared._pos, int) and (spec is None or spec.invariant is None):
             while shared._pos < seq.length:
                 v = seq.get(z3.IntVal(shared._pos))
+                if wrap is not None:
+                    v = wrap(v, shared._pos)
                 shared._pos += 1
                 self.assign(s.target, v, f)
                 try:
@@ -664,7 +710,20 @@ class Interp(Engine):
         return e.value
 
     def ex_Name(self, e, f):
-        return f.lookup(e.id)
+        v = f.lookup(e.id)
+        if isinstance(v, SUnion):
+            chosen = v.alts[-1]
+            for i, alt in enumerate(v.alts[:-1]):
+                if self.decide(v.tag == i):
+                    chosen = alt
+                    break
+            fr = f
+            while fr is not None and e.id not in fr.vars:
+                fr = fr.parent
+            if fr is not None:
+                fr.vars[e.id] = chosen
+            return chosen
+        return v
 
     def ex_Tuple(self, e, f):
         out = []
@@ -1036,6 +1095,8 @@ class Interp(Engine):
             return self.call_method(fn.recv, fn.name, args, kwargs, node, f)
         if isinstance(fn, SpecFn):
             return fn(*args)
+        if isinstance(fn, ConstFn):
+            return fn.value
         if isinstance(fn, SEnum) and not kwargs and not any(_deep_sym(a) for a in args) and all(
                 isinstance(t, types.BuiltinFunctionType) and isinstance(getattr(t, "__self__", None), (str, bytes, int, tuple, frozenset)) for t in fn.table):
             # the same method of an immutable builtin value for every table entry: evaluate entry-wise
@@ -1772,12 +1833,7 @@ def _m_enumerate(self, args, kwargs, node, f):
     v = args[0]
     start = args[1] if len(args) > 1 else kwargs.get("start", 0)
     if isinstance(v, HIter):
-        # enumerate over a shared cursor: element index counts from the cursor position at this point
-        base = v
-        p0 = base.pos
-        it = HIter(SSeq(base.seq.length, lambda i: (SInt(_ie(i) - _ie(p0) + _ie(start)), base.seq.get(i)), kind="list"), base._pos)
-        it.shared_with = base
-        raise Unsupported("enumerate over a shared iterator needs a contract on the enclosing function")
+        return HEnum(v, start)
     s = self.to_seq(v)
     if s is None:
         raise Unsupported("enumerate() of %s" % type(v).__name__)
@@ -1854,6 +1910,39 @@ def _m_bin(self, args, kwargs, node, f):
     if _deep_sym(args[0]):
         return Opaque("bin")
     return bin(args[0])
+
+
+@model(_struct.iter_unpack)
+def _m_iter_unpack(self, args, kwargs, node, f):
+    fmt, data = args
+    if is_sym(fmt):
+        raise Unsupported("struct.iter_unpack with symbolic format")
+    if not is_sym(data):
+        try:
+            return HList(list(_struct.iter_unpack(fmt, data)))
+        except _struct.error as ex:
+            raise PyRaise(_struct.error, str(ex), node)
+    seq = self.to_seq(data)
+    size = _struct.calcsize(fmt)
+    body = fmt[1:] if fmt[0] in "<>=!@" else fmt
+    if fmt[0] in (">", "!") or any(ch not in "Bb" for ch in body):
+        raise Unsupported("struct.iter_unpack format %r" % fmt)
+    ne = seq.len_e()
+    if self.decide(z3.Or(ne % size != 0, ne == 0) if False else (ne % size != 0)):
+        raise PyRaise(_struct.error, "iterative unpacking requires a buffer of a multiple of %d bytes" % size, node)
+
+    def get(i, seq=seq, body=body, size=size):
+        out = []
+        for j, ch in enumerate(body):
+            b = seq.get(z3.simplify(_ie(i) * size + j))
+            if isinstance(b, SInt):
+                sym.note_fact(sym.byte_fact(b.e))
+            if ch == "b":
+                be = _ie(b)
+                b = SInt(z3.If(be >= 128, be - 256, be))
+            out.append(b)
+        return tuple(out)
+    return SSeq(z3.simplify(ne / size), get, kind="list")
 
 
 @model(_struct.unpack)
